@@ -19,3 +19,6 @@ pub mod textual;
 pub mod time;
 #[allow(unused)]
 pub mod visitor;
+
+#[cfg(ironplc_verif)]
+pub mod verif;
